@@ -102,6 +102,9 @@ __CPROVER_ensures(DB_INV(src_buffer) && src_buffer->pos_ >= __CPROVER_old(src_bu
 __CPROVER_ensures(!__CPROVER_return_value || ghost_bits_mode == 0)
 __CPROVER_assigns(src_buffer->pos_, ghost_bits_mode, ghost_bits_read, __CPROVER_object_whole(out_values));
 
+bool RSE_EncodeTable_step(struct RSE *self, uint32_t *i_ref, struct EncoderBuffer *buffer);
+bool RSD_Create_prob_token(struct RSD *self, uint32_t i, uint8_t prob_data, int token, struct DecoderBuffer *buffer);
+static inline bool EncoderBuffer_Encode_u8_val(struct EncoderBuffer *b, uint8_t v) { return EncoderBuffer_Encode_u8(b, &v); } /* Encode<uint8_t>(const T&) called with a temporary */
 #ifdef VERIF_CBMC
 #include "core_helpers.h"
 #include "core_slice.c"
@@ -111,6 +114,48 @@ void h_enf_ComputeRAnsPrecision(void) { AGHOSTS(); int b; ComputeRAnsPrecisionFr
 void h_enf_RSD_Create(void) { AGHOSTS(); struct RSD *d; struct DecoderBuffer *b; RSD_Create(d, b); HARNESS_END(); }
 void h_enf_DecodeRawSymbols(void) { AGHOSTS(); ghost_dispatched_bits = 0; uint32_t n; struct DecoderBuffer *b; uint32_t *o; DecodeRawSymbols(n, b, o); HARNESS_END(); }
 void h_enf_RSD_Create_zero_run(void) { AGHOSTS(); struct RSD *d; uint32_t *i; uint8_t p; RSD_Create_zero_run(d, i, p); HARNESS_END(); }
+/* table.entry.rt (C08/C05): EVERY probability 1 .. 2^22-1 written by one step of the encoder's table loop is read back by the decoder's token branch: same
+ * value, consumed == produced, 1..3 bytes (6 bits in the first byte, 8 per extra byte, extra-byte count in the two low bits and never the zero-run tag) */
+void h_table_entry_rt(void) {
+  AGHOSTS();
+  uint32_t prob; __CPROVER_assume(prob >= 1 && prob < (1u << 22));
+  struct rans_sym tab[1]; tab[0].prob = prob; tab[0].cum_prob = 0;
+  struct RSE e; e.probability_table_.data = tab; e.probability_table_.size = 1; e.probability_table_.cap = 1; e.num_symbols_ = 1;
+  char store[8]; for (int k = 0; k < 8; ++k) store[k] = 0x55;
+  struct EncoderBuffer eb; eb.buffer_.data = store; eb.buffer_.size = 0; eb.buffer_.cap = 8; eb.bit_encoder_ = 0; eb.bit_encoder_reserved_bytes_ = 0; eb.encode_bit_sequence_size_ = false;
+  uint32_t i = 0; bool eok = RSE_EncodeTable_step(&e, &i, &eb);
+  size_t want = prob >= (1u << 14) ? 3 : prob >= (1u << 6) ? 2 : 1;
+  __CPROVER_assert(eok && i == 0 && eb.buffer_.size == want, "table.entry.rt.frozen_entry_length");
+  __CPROVER_assert(((uint8_t)store[0] & 3) == want - 1, "table.entry.rt.token_is_the_extra_byte_count");
+  struct DecoderBuffer db; db.data_ = store; db.data_size_ = (int64_t)eb.buffer_.size; db.pos_ = 1; db.bit_mode_ = false; db.bitstream_version_ = DRACO_BITSTREAM_VERSION(2, 2);
+  uint32_t dtab[1] = {0}; struct RSD d; d.probability_table_.data = dtab; d.probability_table_.size = 1; d.probability_table_.cap = 1; d.num_symbols_ = 1; d.ans_ = 0; d.remaining_at_entry = 0;
+  uint8_t first = (uint8_t)store[0];
+  bool dok = RSD_Create_prob_token(&d, 0, first, first & 3, &db);
+  __CPROVER_assert(dok && dtab[0] == prob, "table.entry.rt.probability_read_back_exactly");
+  __CPROVER_assert(db.pos_ == (int64_t)eb.buffer_.size, "table.entry.rt.consumed_eq_produced");
+  HARNESS_END();
+}
+/* table.zero_run.rt (C08; bounded table of 66 entries): a run of r >= 1 zero probabilities starting at entry 0 and followed by a non-zero one is written as ONE
+ * token with tag 3 and offset min(r,64) - 1, and the decoder's zero-run branch clears exactly those entries and moves its cursor as the encoder did */
+void h_table_zero_run_rt(void) {
+  AGHOSTS();
+  uint32_t r; __CPROVER_assume(r >= 1 && r <= 65);
+  struct rans_sym tab[66]; for (int k = 0; k < 66; ++k) { tab[k].prob = (uint32_t)k < r ? 0u : 1u; tab[k].cum_prob = 0; }
+  struct RSE e; e.probability_table_.data = tab; e.probability_table_.size = 66; e.probability_table_.cap = 66; e.num_symbols_ = 66;
+  char store[8]; for (int k = 0; k < 8; ++k) store[k] = 0x55;
+  struct EncoderBuffer eb; eb.buffer_.data = store; eb.buffer_.size = 0; eb.buffer_.cap = 8; eb.bit_encoder_ = 0; eb.bit_encoder_reserved_bytes_ = 0; eb.encode_bit_sequence_size_ = false;
+  uint32_t i = 0; bool eok = RSE_EncodeTable_step(&e, &i, &eb);
+  uint32_t covered = r < 64 ? r : 64;
+  __CPROVER_assert(eok && eb.buffer_.size == 1 && (uint8_t)store[0] == (uint8_t)(((covered - 1) << 2) | 3), "table.zero_run.rt.one_token_with_tag_3");
+  __CPROVER_assert(i == covered - 1, "table.zero_run.rt.encoder_cursor");
+  uint32_t dtab[66]; for (int k = 0; k < 66; ++k) dtab[k] = 7;
+  struct RSD d; d.probability_table_.data = dtab; d.probability_table_.size = 66; d.probability_table_.cap = 66; d.num_symbols_ = 66; d.ans_ = 0; d.remaining_at_entry = 0;
+  uint32_t di = 0; bool dok = RSD_Create_zero_run(&d, &di, (uint8_t)store[0]);
+  __CPROVER_assert(dok && di == i, "table.zero_run.rt.decoder_cursor_follows_the_encoder");
+  uint32_t k; __CPROVER_assume(k < 66);
+  __CPROVER_assert(dtab[k] == (k < covered ? 0u : 7u), "table.zero_run.rt.exactly_the_run_is_cleared");
+  HARNESS_END();
+}
 void h_enf_DecodeRawSymbolsInternal(void) { AGHOSTS(); uint32_t n; struct DecoderBuffer *b; uint32_t *o; DecodeRawSymbolsInternal(n, b, o); HARNESS_END(); }
 void h_enf_DecodeTaggedSymbols(void) { AGHOSTS(); ghost_bits_mode = 0; ghost_bits_read = 0; uint32_t n; int c; struct DecoderBuffer *b; uint32_t *o; DecodeTaggedSymbols(n, c, b, o); HARNESS_END(); }
 /* symbols.StartDecoding (C08/C02/C18/C06): RAnsSymbolDecoder::StartDecoding on ARBITRARY bytes, any length, both version paths: the payload size declared
